@@ -81,53 +81,72 @@ Proof.
   split; [exact Hn'|]. rewrite Hc'. cbn [flat_map]. rewrite Hc, app_nil_r. reflexivity.
 Qed.
 
-(* Text.Concat with a Segment: normal when the segment's text is not empty *)
-Lemma text_concat_seg_partial t sg :
-  Normal t -> snd sg <> [] ->
+(* Text.Concat with a Segment (any segment, also one with an empty text) *)
+Lemma text_concat_seg_normal t sg :
+  Normal t ->
   Normal (text_concat_seg t sg) /\ content (text_concat_seg t sg) = content t ++ snd sg.
 Proof.
-  intros H1 H2. unfold text_concat_seg.
-  destruct (builder_normal [t; [sg]]) as (Hn' & Hc').
-  { repeat constructor; [assumption|]. destruct sg as [s x]. cbn in *. repeat split; auto. }
-  split; [exact Hn'|]. etransitivity; [exact Hc'|]. cbn. rewrite !app_nil_r. reflexivity.
+  intros H1. unfold text_concat_seg.
+  destruct (builder_normal [t; text_from_seg sg]) as (Hn' & Hc').
+  { repeat constructor; [assumption | apply Normal_tfs]. }
+  split; [exact Hn'|]. etransitivity; [exact Hc'|]. cbn [flat_map]. rewrite content_tfs, app_nil_r. reflexivity.
 Qed.
 
+(* Segment.Concat / RConcat: any segment (empty text, any style) with any
+   string / segment / normal text *)
+Lemma seg_concat_str_normal sg rhs :
+  Normal (seg_concat_str sg rhs) /\ content (seg_concat_str sg rhs) = snd sg ++ rhs.
+Proof.
+  unfold seg_concat_str. destruct (T_normal rhs []) as (Hn & Hc).
+  destruct (builder_normal [text_from_seg sg; T rhs []]) as (Hn' & Hc').
+  { repeat constructor; [apply Normal_tfs | exact Hn]. }
+  split; [exact Hn'|]. etransitivity; [exact Hc'|]. cbn [flat_map]. rewrite content_tfs, Hc, app_nil_r. reflexivity.
+Qed.
+
+Lemma seg_concat_seg_normal sg sg2 :
+  Normal (seg_concat_seg sg sg2) /\ content (seg_concat_seg sg sg2) = snd sg ++ snd sg2.
+Proof.
+  unfold seg_concat_seg.
+  destruct (builder_normal [text_from_seg sg; text_from_seg sg2]) as (Hn' & Hc').
+  { repeat constructor; apply Normal_tfs. }
+  split; [exact Hn'|]. etransitivity; [exact Hc'|]. cbn [flat_map]. rewrite !content_tfs, app_nil_r. reflexivity.
+Qed.
+
+Lemma seg_concat_text_normal sg t :
+  Normal t ->
+  Normal (seg_concat_text sg t) /\ content (seg_concat_text sg t) = snd sg ++ content t.
+Proof.
+  intros Ht. unfold seg_concat_text.
+  destruct (builder_normal [text_from_seg sg; t]) as (Hn' & Hc').
+  { repeat constructor; [apply Normal_tfs | exact Ht]. }
+  split; [exact Hn'|]. etransitivity; [exact Hc'|]. cbn [flat_map]. rewrite content_tfs, app_nil_r. reflexivity.
+Qed.
+
+Lemma seg_rconcat_str_normal lhs sg :
+  Normal (seg_rconcat_str lhs sg) /\ content (seg_rconcat_str lhs sg) = lhs ++ snd sg.
+Proof.
+  unfold seg_rconcat_str. destruct (T_normal lhs []) as (Hn & Hc).
+  destruct (builder_normal [T lhs []; text_from_seg sg]) as (Hn' & Hc').
+  { repeat constructor; [exact Hn | apply Normal_tfs]. }
+  split; [exact Hn'|]. etransitivity; [exact Hc'|]. cbn [flat_map]. rewrite content_tfs, Hc, app_nil_r. reflexivity.
+Qed.
+
+(* StyleText of the empty text is nil *)
+Lemma restyle_nil ts : run_op (OpStyleText [] ts) = [(true, [])].
+Proof. reflexivity. Qed.
+
 (* ------------------------------------------------------------------ *)
-(* Refutations: witnesses on which the faithful model leaves the normal form *)
+(* Refutation: the one remaining witness on which the faithful model leaves the
+   normal form (StyleText; pinned by the existing test TestStyleText) *)
 
 From Coq Require Import Strings.String.
 
 Definition sBold : style := mkStyle None None true false false false false false.
 
-Lemma trim_normal_refuted :
-  exists t n, normalb t = true /\ 0 <= n /\ normalb (trim_text t n) = false.
-Proof.
-  exists [(sBold, hx "61"%string); (style0, hx "e4b8ad"%string)], 2.
-  split; [vm_compute; reflexivity|]. split; [lia | vm_compute; reflexivity].
-Qed.
-
 Lemma restyle_normal_refuted :
   exists t ts, normalb t = true /\ normalb (style_text t ts) = false.
 Proof.
   exists [(sBold, hx "61"%string); (style0, hx "62"%string)], [SOn FBold].
-  split; vm_compute; reflexivity.
-Qed.
-
-Lemma restyle_nil_refuted :
-  exists ts, forallb res_normal (run_op (OpStyleText [] ts)) = false.
-Proof. exists [SOn FBold]. vm_compute. reflexivity. Qed.
-
-Lemma segment_concat_normal_refuted :
-  exists sg rhs, snd sg <> [] /\ rhs <> [] /\ normalb (seg_concat_str sg rhs) = false.
-Proof.
-  exists (style0, hx "61"%string), (hx "62"%string).
-  split; [vm_compute; congruence|]. split; [vm_compute; congruence | vm_compute; reflexivity].
-Qed.
-
-Lemma text_concat_segment_refuted :
-  exists t sg, normalb t = true /\ normalb (text_concat_seg t sg) = false.
-Proof.
-  exists [(sBold, hx "61"%string)], (style0, []).
   split; vm_compute; reflexivity.
 Qed.
 
@@ -168,7 +187,14 @@ Example oracle_accepts_partition :
   check_C33 o (run_op o) = true.
 Proof. vm_compute. reflexivity. Qed.
 
-Example oracle_rejects_trim_witness :
+(* the oracle rejects what TrimWcwidth returned before the repair ... *)
+Example oracle_rejects_old_trim_result :
+  check_C33 (OpTrim [(sBold, hx "61"%string); (style0, hx "e4b8ad"%string)] 2)
+            [(false, [(sBold, hx "61"%string); (style0, [])])] = false.
+Proof. vm_compute. reflexivity. Qed.
+
+(* ... and accepts what the repaired model returns *)
+Example oracle_accepts_trim :
   let o := OpTrim [(sBold, hx "61"%string); (style0, hx "e4b8ad"%string)] 2 in
-  check_C33 o (run_op o) = false.
+  check_C33 o (run_op o) = true.
 Proof. vm_compute. reflexivity. Qed.
